@@ -4,6 +4,7 @@ import (
 	"bytes"
 	"encoding/json"
 	"fmt"
+	"runtime"
 	"time"
 
 	codec "github.com/uhppoted/uhppote-core/encoding/UTO311-L0x"
@@ -92,10 +93,25 @@ func checkSameName(c sameNameCase) *rp.Fail {
 	ev.Case("same-named-process-zones", c.Offsets[0] != c.Offsets[1], fmt.Sprint(c))
 	wire := []byte{byte(c.Y/1000<<4 | c.Y/100%10), byte(c.Y/10%10<<4 | c.Y%10), byte(c.M/10<<4 | c.M%10), byte(c.D/10<<4 | c.D%10)}
 	text := fmt.Sprintf("%04d-%02d-%02d", c.Y, c.M, c.D)
-	for round := 0; round < 3; round++ {
+	dtWire := append(append([]byte(nil), wire...), 0x12, 0x34, 0x56)
+	for round := 0; round < 6; round++ {
+		// (a NEW zone object every round; the one of the round before is garbage by now and is collected: whatever the library
+		// remembers about 'the zone' must not outlive it)
+		runtime.GC()
+		runtime.GC()
 		loc := time.FixedZone(c.Name, c.Offsets[round%2])
 		var fail *rp.Fail
 		zones.With(loc, func() {
+			var dt types.DateTime
+			if out, err := dt.UnmarshalUT0311L0x(append(append([]byte(nil), dtWire...), 0, 0)); err == nil {
+				if p, ok := out.(*types.DateTime); ok && p != nil {
+					want := time.Date(c.Y, time.Month(c.M), c.D, 12, 34, 56, 0, loc)
+					if got := time.Time(*p); !got.Equal(want) || got.In(loc).Hour() != 12 {
+						fail = rp.Failf("types.DateTime/same-named-zones/wrong-instant", "%s 12:34:56 decoded under the process zone %s%+d (round %d; zones of the same name with offset %+d were the process zone before and have been collected): %v, want %v", text, c.Name, c.Offsets[round%2], round, c.Offsets[(round+1)%2], got, want)
+						return
+					}
+				}
+			}
 			var d types.Date
 			out, err := d.UnmarshalUT0311L0x(wire)
 			p, ok := out.(*types.Date)
